@@ -45,6 +45,15 @@ def _one_line(text: str) -> str:
     return text.replace("\r", "\\r").replace("\n", "\\n")
 
 
+def _safe_repr(obj: object) -> str:
+    # The root or leaf of a stack can be any object at all, including one
+    # whose repr() raises (a dead weakref proxy, say)
+    try:
+        return repr(obj)
+    except Exception as ex:
+        return f"<{type(obj).__name__} object at {id(obj):#x}; repr() failed: {ex!r}>"
+
+
 @dataclass
 class FormatOptions:
     ascii_only: bool
@@ -113,7 +122,7 @@ class Stack(Formattable):
     def _format_header(self) -> str:
         if self.root is not None:
             return (
-                f"stackscope.Stack of {_one_line(repr(self.root))} "
+                f"stackscope.Stack of {_one_line(_safe_repr(self.root))} "
                 f"(most recent call last):\n"
             )
         else:
@@ -132,7 +141,7 @@ class Stack(Formattable):
                 marker = start_frame if idx == 0 else continue_frame
                 lines.append(marker + line)
         if self.leaf is not None:
-            lines.append(f"{start_leaf}{_one_line(repr(self.leaf))}\n")
+            lines.append(f"{start_leaf}{_one_line(_safe_repr(self.leaf))}\n")
         if self.error is not None:
             lines.extend(self._format_error())
         return lines
@@ -151,7 +160,7 @@ class Stack(Formattable):
         if self.frames:
             lines.extend(self.as_stdlib_summary(show_contexts=show_contexts).format())
         if self.leaf is not None:
-            lines.append(f"  Target of innermost frame: {self.leaf!r}\n")
+            lines.append(f"  Target of innermost frame: {_safe_repr(self.leaf)}\n")
         if self.error is not None:
             lines.extend(self._format_error())
         return lines
@@ -509,7 +518,7 @@ class Context(Formattable):
             else:  # child task stack
                 sublines = child._format(opts)
                 if child.root is not None:
-                    sublines[0] = f"{_one_line(repr(child.root))}\n"
+                    sublines[0] = f"{_one_line(_safe_repr(child.root))}\n"
                 else:
                     sublines[0] = "<unidentified child>\n"
                 if child.frames:
